@@ -332,10 +332,18 @@ func Request(c *Case, peerAddr string) reqview.Raw {
 		r.Target += "?aq=1"
 	}
 
-	var first, second [][2]string
+	var first, second, blank [][2]string
+
+	// a peer that is certainly not trusted also sends, in every other spelling variant, an empty line
+	// of each header in front of the real one: whatever is looked at, it has no effect
+	emptyFirst := c.Trust == "no" && (c.V/7)%2 == 0
 
 	for i, n := range order {
 		cnt := c.H[n]
+		if cnt >= 1 && emptyFirst {
+			blank = append(blank, [2]string{reqview.Casing(Names[n], c.V+i+2), ""})
+		}
+
 		if cnt >= 1 {
 			first = append(first, [2]string{reqview.Casing(Names[n], c.V+i), headerValue(n, 1, c)})
 		}
@@ -357,6 +365,7 @@ func Request(c *Case, peerAddr string) reqview.Raw {
 	}
 
 	r.Headers = append(r.Headers, [2]string{reqview.CaseHeader, c.ID})
+	r.Headers = append(r.Headers, blank...)
 	r.Headers = append(r.Headers, rot(first, c.V)...)
 
 	echo := make([]string, 0, len(order))
